@@ -40,28 +40,56 @@ def storage_lemma() -> list:
 
 
 def dedup_bounded(sess: Session):
-    """A-DEDUP: execute the real _find_helper de-duplication loop natively on all lists over 3 values, len <= 5."""
+    """A-DEDUP: execute the real de-duplication code of _find_helper natively on all lists over 3 values, len <= 5.
+    The code is located on the AST: the last top-level `for` loop of _find_helper over the collected results (with
+    the accumulators initialised just before it), or the module-level helper that _find_helper's final `return`
+    hands the results to."""
     import ast, inspect, textwrap, itertools
     src = textwrap.dedent(inspect.getsource(core._find_helper))
-    tree = ast.parse(src)
-    fn = tree.body[0]
-    loop = [n for n in fn.body if isinstance(n, ast.For)]
+    fn = ast.parse(src).body[0]
+    runner = None
+    last = fn.body[-1]
+    if isinstance(last, ast.Return) and isinstance(last.value, ast.Call) and isinstance(last.value.func, ast.Name) \
+            and len(last.value.args) == 1 and hasattr(core, last.value.func.id):
+        helper = getattr(core, last.value.func.id)
+        runner = lambda xs: helper(list(xs))
+        where = f'wn._core.{last.value.func.id}'
+    else:
+        loops = [k for k, n in enumerate(fn.body) if isinstance(n, ast.For)]
+        if loops and isinstance(last, ast.Return) and isinstance(last.value, ast.Name):
+            k = loops[-1]
+            loop = fn.body[k]
+            inits = []
+            for st in fn.body[:k][::-1]:
+                if isinstance(st, (ast.Assign, ast.AnnAssign)) and st.value is not None and (
+                        isinstance(st.value, (ast.List, ast.Set, ast.Dict)) or
+                        (isinstance(st.value, ast.Call) and isinstance(st.value.func, ast.Name) and
+                         st.value.func.id in ('set', 'list', 'dict'))):
+                    inits.insert(0, st)
+                else:
+                    break
+            if isinstance(loop.iter, ast.Name) and inits:
+                mod = ast.Module(body=inits + [loop], type_ignores=[])
+                code = compile(ast.fix_missing_locations(mod), '<_find_helper loop>', 'exec')
+                src_name, out_name = loop.iter.id, last.value.id
+
+                def runner(xs, code=code, src_name=src_name, out_name=out_name):
+                    env = {src_name: list(xs)}
+                    exec(code, env)
+                    return env[out_name]
+                where = 'wn._core._find_helper (final loop)'
+    if runner is None:
+        raise Unsupported('C09: the de-duplication code of _find_helper was not recognised')
     cases, bad = 0, []
-    if len(loop) != 1:
-        sess.errors.append('C09: de-duplication loop of _find_helper not found')
-        return
-    mod = ast.Module(body=[loop[0]], type_ignores=[])
-    code = compile(ast.fix_missing_locations(mod), '<_find_helper loop>', 'exec')
     for n in range(6):
         for xs in itertools.product('abc', repeat=n):
-            env = {'results': list(xs), 'unique_results': [], 'seen': set()}
-            exec(code, env)
             cases += 1
+            got = runner(xs)
             want = list(dict.fromkeys(xs))
-            if env['unique_results'] != want:
-                bad.append({'results': xs, 'got': env['unique_results'], 'want': want})
-    sess.add_bounded('wn._core._find_helper (de-duplication loop)', 'all lists over 3 values, length <= 5', cases,
-                     'native execution of the extracted loop', not bad)
+            if list(got) != want:
+                bad.append({'results': xs, 'got': got, 'want': want})
+    sess.add_bounded(f'{where} (de-duplication)', 'all lists over 3 values, length <= 5', cases,
+                     'native execution of the located code', not bad)
     if bad:
         sess.violation_direct('wn._core._find_helper:dedup', 'results are not de-duplicated in first-occurrence order',
                               {'witness': bad[0]}, True, functions=('wn._core._find_helper',))
@@ -88,4 +116,7 @@ def run(sess: Session):
             if ev.kind == 'contract' and ev.extra['fn'] == '_insert_forms':
                 for ob in addchecks.contract_obligations(world, PROP, out, ev):
                     sess.check(ob)
-    dedup_bounded(sess)
+    try:
+        dedup_bounded(sess)
+    except Unsupported as exc:
+        sess.unsupported('wn._core._find_helper:dedup', str(exc))
